@@ -3,12 +3,13 @@ CONSTANTS Nib = {0, 1, 15}
           KeyLen = 2
           Vals = {10}
           Pad = 0
-          MaxKeys = 4
+          MaxKeys = 3
           Mode = "mc"
           SeqBatches = FALSE
           Depth = 0
           NBatch = 0
           NKeys = 4
+          Encs = {"nil"}
           BOps <- OpsPool
           BatchLens = {4}
           BatchSet <- MCBatchSet
